@@ -619,8 +619,12 @@ func (m *Model) mustRemove(r *MRepo, now time.Time) (blobs, mans map[string]bool
 			if keep[ad] || a.view.subject == "" {
 				continue
 			}
-			_, subjPresent := r.blobs[a.view.subject]
+			sb, subjPresent := r.blobs[a.view.subject]
 			demand := (!subjPresent && m.k.refDangling()) || (subjPresent && m.k.refWithSubj())
+			if subjPresent && sb.maybeGone {
+				// an earlier collection may or may not have taken the subject: which policy row applies is not known
+				demand = m.k.refDangling() && m.k.refWithSubj()
+			}
 			if !demand {
 				add(ad)
 				drain()
